@@ -58,6 +58,10 @@ def rex_match(rexes, x):
     return any(re.match(re.compile(r, RE_FLAGS), x) is not None for r in rexes)
 
 
+def members_are_values(lst, col):
+    return all(any(x == y and type(x) is type(y) for y in col.nonnull) for x in lst)
+
+
 def is_datev(v):
     return isinstance(v, (datetime.datetime, datetime.date))
 
@@ -84,7 +88,7 @@ def iff(a, b):
 
 NATIVE_PRIMS = dict(forall_nn=forall_nn, exists_nn=exists_nn, distinct_nn=distinct_nn,
                     whole=whole, rex_match=rex_match, is_datev=is_datev,
-                    is_numv=is_numv, is_strv=is_strv, is_boolv=is_boolv,
+                    is_numv=is_numv, members_are_values=members_are_values, is_strv=is_strv, is_boolv=is_boolv,
                     implies=implies, iff=iff, datetime=datetime)
 
 _loaded = {}
